@@ -157,6 +157,21 @@ def _inv_entry(e: tuple[Any, ...]) -> tuple[Any, ...]:
     return tuple(e[:5]) if e[0] == "step" else tuple(e[:4])
 
 
+def _zstd_views(raw: bytes) -> list[bytes]:
+    """Outputs of every zstd frame that decodes from an offset in the first 64 bytes (keyless reader)."""
+    import zstandard
+
+    out: list[bytes] = []
+    for off in range(0, min(64, len(raw))):
+        if raw[off : off + 4] != b"\x28\xb5\x2f\xfd":
+            continue
+        try:
+            out.append(zstandard.ZstdDecompressor().decompressobj().decompress(raw[off:]))
+        except zstandard.ZstdError:
+            pass
+    return out
+
+
 def _family(cls: str) -> str:
     """Mechanism family of a case class for violation keys (envelope region / pair labels stay in the witness)."""
     head = cls.split(":")[0]
@@ -251,14 +266,16 @@ def _job_mutate(job: dict[str, Any], chk: Check, judge: Judge) -> None:
         chk.hit("cursor_opener_seen")
     if base["opens"]["call"]:
         chk.hit("call_opener_seen")
-    # canaries
+    # canaries: raw token bytes, the base64 text, and any zstd frame found near the start of the body
     for name, tok in (("cursor", cur), ("call", call)):
         raw = base64.b64decode(tok)
+        views = [raw, tok] + _zstd_views(raw)
+        chk.hit("canary_views", len(views))
         for can in (CANARY_M, CANARY_PAYLOAD):
             chk.hit("canary_checked")
-            for form in (can.encode(), can.encode("utf-16-le"), base64.b64encode(can.encode()).rstrip(b"=")[:-2]):
-                if form in raw or form in tok:
-                    chk.violation(f"canary_in_token:{name}", "state plaintext is visible in token bytes", {"job": job, "canary": can})
+            forms = (can.encode(), can.encode("utf-16-le"), base64.b64encode(can.encode()).rstrip(b"=")[:-2])
+            if any(f in v for f in forms for v in views):
+                chk.violation(f"canary_in_token:{name}", "state plaintext is recoverable from token bytes without the key", {"job": job, "canary": can})
     targets = {"cursor": cur, "call": call}
     slots = ["cursor", "call"] if slot == "both" else [slot]
     for sl in slots:
